@@ -25,8 +25,10 @@
 (*   %ints = (1, 2, 2, 3)  %two = (2)  %strs = ('a', 'b')                  *)
 (*   %tt = (true, true)  %tf = (true, false)  %ff = (false, false).        *)
 (*                                                                         *)
-(* Mutant selects a deliberately wrong acceptance rule                     *)
-(* (arityOffByOne, acceptUnknown).                                         *)
+(* Mutant selects a deliberately wrong acceptance rule (arityOffByOne,     *)
+(* acceptUnknown), a machine in which a not-implemented name yields a      *)
+(* value (notImplementedYieldsValue, in C16_MC) or a table that lacks the  *)
+(* probes of the one-argument calls (probeMissing).                        *)
 (***************************************************************************)
 EXTENDS FPValues
 
@@ -600,7 +602,7 @@ CallText(recv, name, args) ==
 ArgsFor(f, c)   == [j \in 1..c |-> IF j <= Len(f.args) THEN f.args[j] ELSE "1"]
 DefaultText(f, c) == CallText(f.recv, f.name, ArgsFor(f, c))
 ProbeText(f, p) == CallText(p.recv, f.name, p.args)
-ProbesAt(f, c)  == SelectSeq(f.probes, LAMBDA p : p.count = c)
+ProbesAt(f, c)  == IF Mutant = "probeMissing" /\ c = 1 THEN <<>> ELSE SelectSeq(f.probes, LAMBDA p : p.count = c)
 
 (* ------------------------------------------------------------------------ *)
 (* Well-formedness of the table                                             *)
